@@ -1,5 +1,6 @@
 import Hms.Sexp
 import Hms.Core.Syntax
+import Hms.Core.Value
 /-! Decoder for the analysed-AST S-expressions written by `harness/ast.go` (driver side only). -/
 namespace Driver.Decode
 open Hms Hms.Core
@@ -194,5 +195,48 @@ def program (s : Sexp) : D Program :=
   match s with
   | .list (.atom "modules" :: ms) => ms.mapM module
   | _ => fail "program" s
+
+/-! ## Host-provided values (the value S-expressions of `harness/values.go`)
+
+`null | none | (some V) | (i n) | (f m e)` (the float `m / 2^e`) `| (b true|false) | (s x<hex>) |
+(l V…) | (o (x<key> V)…) | (a (x<key> V)…) | (r a b incl)` -/
+
+partial def hostVal (s : Sexp) : D HostVal :=
+  match s with
+  | .atom "null" => pure .null
+  | .atom "none" => pure .none
+  | .list [.atom "some", v] => do pure (.some (← hostVal v))
+  | .list [.atom "i", n] => do pure (.int (← int n))
+  | .list [.atom "f", m, e] => do
+    let m ← int m
+    let e ← nat e
+    pure (.float ((Float.ofInt m).scaleB (-(e : Int))).toBits.toNat)
+  | .list [.atom "b", b] => do pure (.bool (← bool b))
+  | .list [.atom "s", x] => do pure (.str (← str x))
+  | .list (.atom "l" :: xs) => do pure (.list (← xs.mapM hostVal))
+  | .list (.atom "o" :: fs) => do pure (.obj (← fs.mapM field))
+  | .list (.atom "a" :: fs) => do pure (.anyobj (← fs.mapM field))
+  | .list [.atom "r", a, b, incl] => do pure (.range (← int a) (← int b) (← bool incl))
+  | _ => fail "host value" s
+where
+  field (f : Sexp) : D (String × HostVal) :=
+    match f with
+    | .list [k, v] => do pure (← str k, ← hostVal v)
+    | _ => fail "host object field" f
+
+/-- `(singletons (x<name> V)…)` -/
+def hostSingletons (s : Sexp) : D HostSingletons :=
+  match s with
+  | .list (.atom "singletons" :: kvs) => kvs.mapM fun kv => match kv with
+    | .list [k, v] => do pure (← str k, ← hostVal v)
+    | _ => fail "singleton binding" kv
+  | _ => fail "singletons" s
+
+/-- A program with what its host provides: `(modules …)` (a host that provides nothing) or
+`(hosted (singletons (x<name> V)…) (modules …))`. -/
+def hostedProgram (s : Sexp) : D (Program × HostSingletons) :=
+  match s with
+  | .list [.atom "hosted", h, p] => do pure (← program p, ← hostSingletons h)
+  | _ => do pure (← program s, [])
 
 end Driver.Decode
